@@ -10,6 +10,7 @@ prog = {
   "envvals": {input share: [values the environment may write]},
   optional "scale": s (numbers in shares / put / inc / cmp / check literals are ints in units of 1/s; default 1),
   optional "qpu": quanta per store unit (only for `elapsed <op> share` conditions),
+  optional "uninit": [shares the script does not init (empty until a need / the environment creates a field)],
   optional "fielded": [shares whose data is the field `pos` (instead of `value`) and that may get a second field `sub`
   (field names that are not hexadecimal numerals: a bare `fa` as a goal is the number 250)]}
 share values: int (in units of 1/scale), str, bool - a share keeps the kind of its initial value
@@ -75,6 +76,8 @@ def need_text(prog, n, quantum=None):
                 return num(v, quantum)
             return valtext(v, scale, n.get("fl", False))
         goal = ref(prog, n["goal"]) if n["gk"] == "share" else lit(n["goal"])
+        if n["gk"] == "share" and "gspell" in n:      # the goal's field as the script writes it ("" = left to the default)
+            goal = (n["gspell"] + " in " if n["gspell"] else "") + n["goal"]
         s = "%s%s %s %s" % (neg, state, n["op"], goal)
         if n["tol"] != 0 or n.get("tolzero"):
             s += " +- %s" % lit(n["tol"])
@@ -149,6 +152,8 @@ CONTEXTS = ("enter", "renter", "recur", "exit", "rexit")
 def emit(prog, quantum=None, house="h1"):
     out = ["house %s" % house, ""]
     for s, v in prog["shares"].items():
+        if s in prog.get("uninit", ()):     # not initialised by the script: created empty when first referenced
+            continue
         out.append("  init %s with %s%s" % (s, MAIN + " " if s in prog.get("fielded", ()) else "", valtext(v, prog.get("scale", 1))))
     out.append("")
     # declaration order: taskables in house order first, then aux / slave framers
